@@ -48,7 +48,7 @@ def generate(tier, rng):
             if cand and rng.random() < 0.4:
                 split[f["name"]] = rng.choice(cand)
         cases.append(dict(stream="sankey", kind="sankey", sys=dict(uni=uni, procs=base["procs"], flows=flows, stocks=[]),
-                          slice=slice_dict, exclp=exclp, exclf=exclf, split=split, by_name=(k % 2 == 0)))
+                          slice=slice_dict, exclp=exclp, exclf=exclf, split=split, by_name=(k % 2 == 0), reuse=(k % 4 == 3)))
     # line plots
     uni = mk_universe((3, 2, 2), "tab", int_dims=("t",))
     k = 0
@@ -85,8 +85,17 @@ def run_impl(case):
         for n, l in case["split"].items():
             colors[n] = (uni[l]["name"] if case["by_name"] else l, ["red", "green", "blue", "black"])
         try:
-            pl = fe.PlotlySankeyPlotter(mfa=mfa, slice_dict=dict(case["slice"]), exclude_processes=list(case["exclp"]),
-                                        exclude_flows=list(case["exclf"]), flow_color_dict=colors)
+            if case.get("reuse"):
+                # one plotter used twice: first showing everything without a slice, then with the case's exclusions and slice
+                # (exclusions are only ADDED: colours are assigned at construction to what is shown then)
+                pl = fe.PlotlySankeyPlotter(mfa=mfa, slice_dict={}, exclude_processes=[], exclude_flows=[], flow_color_dict=colors)
+                pl.plot()
+                pl.slice_dict = dict(case["slice"])
+                pl.exclude_processes = list(case["exclp"])
+                pl.exclude_flows = list(case["exclf"])
+            else:
+                pl = fe.PlotlySankeyPlotter(mfa=mfa, slice_dict=dict(case["slice"]), exclude_processes=list(case["exclp"]),
+                                            exclude_flows=list(case["exclf"]), flow_color_dict=colors)
             fig = pl.plot()
             d = fig.data[0]
             return dict(kind="ok", source=list(d.link.source), target=list(d.link.target), value=observe_values(np.array(d.link.value, dtype=float)),
